@@ -28,9 +28,10 @@ def run(ck):
     dA, dB = (3, 3) if quick else (4, 4)
     for v in (63, 0):
         ck.explore(exe, ["--prog=%d" % v, "--depth=%d" % dB], "B%d-p%02d" % (dB, v), budget=0, deadline_s=70 if quick else 900, timeout_ms=30000, jobs=16)
-    for v in range(64):
-        ck.explore(exe, ["--prog=%d" % v, "--depth=%d" % dA, "--ops-full=0"], "A%d-p%02d" % (dA, v), budget=0, deadline_s=20 if quick else 120, timeout_ms=30000, jobs=16)
-    ck.finish(vlib.mc_coverage(ck.parts, RULE.replace("depth D", "depth %d (part A) / %d (part B)" % (dA, dB)),
+    ck.explore(exe, ["--prog=-1", "--depth=%d" % (dA - 1), "--ops-full=0"], "A%d-all64" % (dA - 1), budget=0, deadline_s=60 if quick else 300, timeout_ms=30000, jobs=16)
+    # one level deeper for all 64 variants: completes when the machine is free, otherwise reports how far it got
+    ck.explore(exe, ["--prog=-1", "--depth=%d" % dA, "--ops-full=0"], "A%d-all64" % dA, budget=0, deadline_s=70 if quick else 1000, timeout_ms=30000, jobs=16)
+    ck.finish(vlib.mc_coverage(ck.parts, RULE.replace("depth D", "depth %d complete, %d as far as the deadline allows (part A) / depth %d (part B)" % (dA - 1, dA, dB)),
                                extra={"loads_compared_with_fresh_compile": sum(p.get("counters", {}).get("loads_compared_with_fresh_compile", 0) for p in ck.parts),
                                       "binaries_used": sum(p.get("counters", {}).get("binaries_used", 0) for p in ck.parts)}),
               assumptions=ASSUMPTIONS)
